@@ -27,7 +27,9 @@ def extract_seeds():
             s = re.search(r"T\s+_scal\s*=\s*([^;]+);", m.group(1))
             if s:
                 e = s.group(1).replace(" ", "")
-                name = {"std::numeric_limits<T>::max()": "max", "std::numeric_limits<T>::lowest()": "lowest",
+                name = {"std::numeric_limits<T>::has_infinity?std::numeric_limits<T>::infinity():std::numeric_limits<T>::max()": "infmax",
+                        "std::numeric_limits<T>::has_infinity?-std::numeric_limits<T>::infinity():std::numeric_limits<T>::lowest()": "neginflowest",
+                        "std::numeric_limits<T>::max()": "max", "std::numeric_limits<T>::lowest()": "lowest",
                         "std::numeric_limits<T>::min()": "min", "0": "zero", "T(0)": "zero"}.get(e, "unknown")
         out[fn] = name
     return out
@@ -81,6 +83,14 @@ def sym_groups(tier, seed):
                     enc, txt, _ = rng.choice(EXPRS[1:])
                     calls.append('RED_CASE(%s, %d, NORM, "%s", %s);' % (T, n, enc, txt))
                     calls.append("rs::run_inner<%s,%d,%d>();" % (T, n, rng.randint(1, 3)))
+            if quick:
+                # every residue modulo V is hit by some entry point: the sizes 1..2V+3 not in the boundary list get one kind each
+                kinds = ["SUM", "PROD", "TSUM", "TPROD", "NORM", "INNER"]
+                listed = set(int(re.search(r", (\d+),", c).group(1)) for c in calls if c.startswith("RED_CASE"))
+                for n in range(1, 2 * V + 4):
+                    if n not in listed:
+                        K = kinds[(n + seed) % len(kinds)]
+                        calls.append("rs::run_inner<%s,%d,0>();" % (T, n) if K == "INNER" else 'RED_CASE(%s, %d, %s, "t1", A);' % (T, n, K))
             for n in ladder_sizes(V, tier, rng):
                 calls.append('RED_CASE(%s, %d, NORM, "t1", A);' % (T, n))
                 enc, txt, _ = rng.choice(EXPRS[1:])
@@ -94,7 +104,7 @@ def sym_groups(tier, seed):
                 calls.append('TRACE_CASE(%s, %d, "%s", %s);' % (T, m, enc, txt))
             for m in (1, 2, 3, 4):
                 calls.append("rs::run_det<%s,%d>();" % (T, m))
-            groups.append({"key": "%s/sz%d" % (isa, sz), "header": "reduce_sym.h", "isa": isa, "calls": calls})
+            groups.append({"key": "%s/sz%d" % (isa, sz), "header": "reduce_sym.h", "isa": isa, "opt": "-O0", "calls": calls})
     # real element types through the model: min / max on the sign patterns, predicates, QR determinants
     ds = seed * 13 + 5
     risas = core.QUICK_ISAS if quick else core.ALL_ISAS
@@ -144,6 +154,10 @@ def real_groups(tier, seed):
                 for n in (sizes if not quick else rng.sample(sizes, 3)):
                     calls.append("rr::run_fbound<%s,%d>(%du);" % (t, n, ds + n))
             groups.append({"key": "%s/real/%s" % (isa, t), "header": "reduce_real.h", "isa": isa, "opt": "-O2", "calls": calls})
+        # the real horizontal steps of every SIMDVector<T,ABI> that exists under this ISA, lane by lane
+        abis = {"scalar": [], "sse2": ["sse"], "sse42": ["sse"], "avx": ["sse", "avx"], "avx2": ["sse", "avx"], "avx512": ["sse", "avx", "avx512"]}[isa]
+        calls = ['rr::run_hvec<%s,Fastor::simd_abi::%s>("%s", %du);' % (t, a, a, ds) for a in abis + ["scalar"] for t in TYPES]
+        groups.append({"key": "%s/hvec" % isa, "header": "reduce_real.h", "isa": isa, "opt": "-O2", "calls": calls})
         if not quick or isa == "avx2":
             calls = []
             for m in range(1, 9):
@@ -177,6 +191,7 @@ def run(tier, seed):
                      "integer-valued data for the exact real-type runs; integer arithmetic wraps",
                      "determinant<LU> / Simple for n>4 only on matrices for which the statically pre-pivoted LU exists (diagonally dominant and their row permutations)",
                      "floating-point error bounds are measured (fbound lines), not proved",
+                     "the real per-ABI horizontal sum/product/minimum/maximum are value-tested lane by lane (hvec lines), not modelled",
                      "seeds read from the source (X1): min -> %s, max -> %s" % (seeds["min"], seeds["max"])],
         rule="symbolic cases: (cfg, sizeof T, kind, n, expression) instantiations of the real sum/product/Tensor::sum/Tensor::product/norm/inner/trace/determinant "
              "templates over the exact polynomial carrier, compared with the Lean model on value, width, ordered vector loads, tail read set, read sets; "
